@@ -59,6 +59,7 @@ EVAL_TIMEOUT = 2.0
 MAX_TIMEOUTS = 24                   # after this many watchdog hits in one run the remaining cases are not started
 MAX_VIOL_PER_CHUNK = 40
 DOUBLE_MAX_TOKENS = 16
+QUICK_MAX_TOKENS = 24
 
 ALPHABET = [
     # literals and the prefixes their readers can stop in
@@ -1008,7 +1009,13 @@ def run(cfg):
     # (b) edits
     hand, gen, nfiles, nlines = corpus()
     lines = hand if cfg.quick else hand + gen
-    phase('b:single-edits-hand-written', [('single', i, ln) for i, ln in enumerate(hand)], chunk=4)
+    if cfg.quick:
+        # quick: one representative (shortest, then smallest) line per token skeleton among the hand-written lines of
+        # <= QUICK_MAX_TOKENS tokens (cost grows with the square of the line length); thorough: every line
+        hand_q = skeleton_representatives(hand, QUICK_MAX_TOKENS)
+        phase('b:single-edits-hand-written', [('single', i, ln) for i, ln in enumerate(hand_q)], chunk=4)
+    else:
+        phase('b:single-edits-hand-written', [('single', i, ln) for i, ln in enumerate(hand)], chunk=4)
     reps = []
 
     def doubles(groups):
@@ -1061,7 +1068,7 @@ def run(cfg):
                 'distinct_nontrivial = distinct (text, module) cases (64-bit BLAKE2 digest) whose parse produced a '
                 'non-empty program or an error, i.e. everything except texts that parse to the empty program; '
                 'distinct_outcomes = distinct (end index, program signature) / error classes'
-                % (L, len(ALPHABET), len(STRUCT), 'hand-written' if cfg.quick else 'whole',
+                % (L, len(ALPHABET), len(STRUCT), ('hand-written (one representative line per token skeleton, lines of <= %d tokens)' % QUICK_MAX_TOKENS) if cfg.quick else 'whole',
                    '' if cfg.quick else '; every double edit of one representative line per token skeleton of the '
                    'lines of <= %d tokens (%d skeletons)' % (DOUBLE_MAX_TOKENS, len(reps)), len(longs)),
         'samples': samples,
